@@ -6,6 +6,7 @@
 
 mod deb;
 mod docspec;
+mod lossy;
 mod pgp;
 mod rel;
 mod util;
@@ -32,6 +33,9 @@ fn dispatch(op: &str, args: &[&str]) -> Option<Resp> {
     if let Some(r) = deb::handle(op, args) {
         return Some(r);
     }
+    if let Some(r) = lossy::handle(op, args) {
+        return Some(r);
+    }
     if let Some(r) = rel::handle(op, args) {
         return Some(r);
     }
@@ -43,6 +47,10 @@ fn generate(prop: &str, tier: &str, seed: u64, out: &mut util::Out) {
         "C19" => pgp::generate(tier, seed, out),
         "C01" => deb::generate_c01(tier, seed, out),
         "C03" => deb::generate_c03(tier, seed, out),
+        "C06" => lossy::generate_c06(tier, seed, out),
+        "C08" => lossy::generate_c08(tier, seed, out),
+        "C09" => rel::generate_c09(tier, seed, out),
+        "C10pre" => rel::generate_c10pre(tier, seed, out),
         _ => {}
     }
 }
